@@ -21,6 +21,7 @@
 //              p:<name>=<expr>      top-level parameter (expression)      n:<name>=<decimal>  number parameter
 //              r:<name>=<content>   in-memory resource (import/include/document(): looked up by the last path segment)
 //              o:full=1             append the whole error text and output to the reply
+//              o:cap=<MB>           cap of the counting manager for this request      o:fresh=1  see checks/c03.py
 //        reply: rc=<rc> stage=<compile|parse|transform|-> err=<strlen(getLastError())> okerr=<error length after an rc 0 stage>
 //               exc=<-|type of an exception that escaped the entry point> out=<len>,<hash>
 //               gold=<ok|bad:rc=..|bad:output|exc:T> mm=<before>,<after> heap=<before>,<after> allocs=<n> msg=<head>
@@ -42,6 +43,7 @@
 #include <sanitizer/common_interface_defs.h>
 #include <new>
 #include <typeinfo>
+#include <cxxabi.h>
 #include <fstream>
 #include <sanitizer/allocator_interface.h>
 #include <sanitizer/lsan_interface.h>
@@ -89,31 +91,42 @@ public:
     virtual void deallocate(void* p)
     {
         if (p == 0) return;
-        bytes -= __sanitizer_get_allocated_size(p);
+        // a pointer the allocator does not own (double free, foreign pointer): let free() produce the sanitizer's report
+        if (__sanitizer_get_ownership(p)) bytes -= __sanitizer_get_allocated_size(p);
         free(p);
     }
     virtual xercesc::MemoryManager* getExceptionMemoryManager() { return this; }
 };
 
 CountingMM g_mm;
+size_t g_defaultCap = size_t(256) << 20;
 std::string g_dir;
 
 inline size_t heapNow() { return __sanitizer_get_current_allocated_bytes(); }
 
 // phase of the request in flight, printed when a sanitizer kills the process (checks/c03.py reads it)
 const char* volatile g_phase = "idle";
+char g_failKey[64] = "-";       // kind and stage of the failure that preceded the golden step, e.g. xp:evaluate, tr:transform
 void onDeath()
 {
     const char* p = g_phase;
     write(2, "c03-phase: ", 11);
     write(2, p, strlen(p));
+    write(2, " after=", 7);
+    write(2, g_failKey, strlen(g_failKey));
     write(2, "\n", 1);
 }
 
-// "mode forkgold 1": after a request that did not succeed, the golden step runs in a forked child and the long-lived
-// objects are then replaced. checks/c03.py switches this on in a shard only after a crash in the golden step was confirmed
-// there, so that a defect which poisons the object after every error costs a fork instead of a driver restart per case.
-bool g_forkGold = false;
+// "mode forkgold <key>": after a request that failed in the way <key> names (xp:create, xp:evaluate, tr:compile, tr:parse,
+// tr:transform), the golden step runs in a forked child and the long-lived objects are then replaced. checks/c03.py switches
+// this on in a shard only after a crash in the golden step following such a failure was confirmed there, so that a defect
+// which poisons the object after every error of that kind costs a fork instead of a driver restart per case.
+std::map<std::string, bool> g_forkKeys;
+bool forkGoldFor(const std::string& key)
+{
+    snprintf(g_failKey, sizeof g_failKey, "%s", key.c_str());
+    return g_forkKeys.count(key) != 0;
+}
 
 std::string inChild(const std::function<std::string()>& f)
 {
@@ -258,7 +271,17 @@ std::string guardCall(F f, std::string& msg)
     catch (const XalanDOMException& e) { msg = "code " + std::to_string((int)e.getExceptionCode()); return "XalanDOMException"; }
     catch (const std::bad_alloc&) { return "std::bad_alloc"; }
     catch (const std::exception& e) { msg = e.what(); return "std::exception"; }
-    catch (...) { return "unknown"; }
+    catch (...)
+    {
+        // name the type (e.g. a Xerces exception that is neither SAXException nor XMLException)
+        const std::type_info* ti = abi::__cxa_current_exception_type();
+        if (ti == 0) return "unknown";
+        int st = 0;
+        char* dn = abi::__cxa_demangle(ti->name(), 0, 0, &st);
+        std::string n = dn ? dn : ti->name();
+        free(dn);
+        return n;
+    }
 }
 
 std::string head(const std::string& s, size_t n = 160)
@@ -361,8 +384,9 @@ void runXpc(Doc& d, const std::string& text, XpResult& o, bool fresh)
             return "";
         };
         const bool failed = !exc.empty() || o.crc != 0 || o.erc != 0;
+        const bool viaFork = failed ? forkGoldFor(xp == 0 && o.crc != 0 ? "xp:create" : "xp:evaluate") : (forkGoldFor("-"), false);
         std::string gold;
-        if (g_forkGold && failed)
+        if (viaFork)
         {
             gold = inChild(goldFn);
             // replace the long-lived evaluators: the old ones are not trusted after a failure in this mode
@@ -444,6 +468,7 @@ void runTrx(const std::vector<std::string>& f, TrResult& r, std::string* fullErr
         if (a.size() < 3 || a[1] != ':') continue;
         if (a[0] == 'e') { entry = a.substr(2); continue; }
         if (a == "o:fresh=1") { fresh = true; continue; }
+        if (a.compare(0, 6, "o:cap=") == 0) { g_mm.cap = size_t(atoi(a.c_str() + 6)) << 20; continue; }
         size_t e = a.find('=');
         if (e == std::string::npos) continue;
         std::string k = a.substr(2, e - 2), v = a.substr(e + 1);
@@ -568,6 +593,7 @@ void runTrx(const std::vector<std::string>& f, TrResult& r, std::string* fullErr
                 // the source is parsed whether or not the stylesheet compiled: a failed compile must not disturb it
                 const int rcC = rc;
                 const std::string errC = err;
+                if (rcC == 0) stage = "parse";
                 const int rcP = t.parseSource(xmlIn, ps, entry == "compiled-xw");
                 const std::string errP = t.getLastError();
                 if (rcP == 0) okerr += errP.size();
@@ -641,10 +667,12 @@ void runTrx(const std::vector<std::string>& f, TrResult& r, std::string* fullErr
     // the transformer must stay usable
     std::string g;
     g_phase = "golden";
+    g_mm.cap = g_defaultCap;      // a per-request cap (o:cap=) ends with the request: the golden step runs under the default one
 #if defined(C03_SKIP_GOLDEN_AFTER_ERROR)
     if (rc != 0) g = ""; else
 #endif
-    if (g_forkGold && rc != 0 && !fresh)
+    if (rc == 0) forkGoldFor("-");
+    if (rc != 0 && forkGoldFor("tr:" + stage) && !fresh)
     {
         g = inChild([&]() { return golden(t); });
         t.setEntityResolver(0);
@@ -668,6 +696,7 @@ std::string cmdTrx(const std::vector<std::string>& f)
     bool full = false;
     for (size_t i = 3; i < f.size(); ++i) if (f[i] == "o:full=1") full = true;
     TrResult r;
+    struct CapRestore { size_t cap; ~CapRestore() { g_mm.cap = cap; } } capRestore = { g_mm.cap };
     std::string fullErr, fullOut;     // only with o:full=1 (replay): the heap reading then includes them
     const size_t h0 = heapNow(), m0 = g_mm.bytes;
     runTrx(f, r, full ? &fullErr : 0, full ? &fullOut : 0);
@@ -686,6 +715,7 @@ int main(int argc, char** argv)
 {
     g_dir = argc > 1 ? argv[1] : "/tmp";
     if (argc > 2) g_mm.cap = size_t(atoi(argv[2])) << 20;
+    g_defaultCap = g_mm.cap;
     mkdir(g_dir.c_str(), 0777);
     __sanitizer_set_death_callback(onDeath);
     if (XalanInitialize() != 0) { fprintf(stderr, "c03: XalanInitialize failed\n"); return 3; }
@@ -728,7 +758,11 @@ int main(int argc, char** argv)
                     else if (f[0] == "doc") reply = cmdDoc(f);
                     else if (f[0] == "lsan") reply = std::to_string(__lsan_do_recoverable_leak_check());
                     else if (f[0] == "ping") reply = "pong";
-                    else if (f[0] == "mode" && f.size() > 2 && f[1] == "forkgold") { g_forkGold = f[2] == "1"; reply = "ok"; }
+                    else if (f[0] == "mode" && f.size() > 2 && f[1] == "forkgold")
+                    {
+                        if (f[2] == "none") g_forkKeys.clear(); else g_forkKeys[f[2]] = true;
+                        reply = "ok";
+                    }
                     else reply = "e\tunknown command";
                 }
                 catch (const XSLException& e) { reply = "e\t" + esc(excText(e)); }
